@@ -404,6 +404,124 @@ async def precedence_case(case: Dict[str, Any]) -> List[Tuple[str, str]]:
     return out
 
 
+class _Clock:
+    """Stands in for the ``time`` module inside grpclib.metadata: Deadline arithmetic reads this
+    clock, which the case moves forward by hours without sleeping (the event loop's own clock and
+    its timeouts are not affected)."""
+
+    def __init__(self):
+        import time as _t
+        self._t, self.offset = _t, 0.0
+
+    def monotonic(self) -> float:
+        return self._t.monotonic() + self.offset
+
+    def __getattr__(self, name):
+        return getattr(self._t, name)
+
+
+async def reuse_case(case: Dict[str, Any]) -> List[Tuple[str, str]]:
+    """ONE stub, several calls, time passing in between: a stub-level TIMEOUT is a per-call budget
+    (every call gets the full budget), a stub-level DEADLINE is a fixed point in time."""
+    import grpclib.metadata as gm
+    main, other = gen()
+    T = types(main, other)
+    m = case["method"]
+    _, cstream, sstream, rk, _ = METHODS[m]
+    py = py_method_names(main)[m]
+    record: List[Any] = []
+    svc = make_service(main, T, "normal", 1, record)
+    seen: List[Optional[float]] = []
+    clock = _Clock()
+    real_time = gm.time
+    gm.time = clock
+    out: List[Tuple[str, str]] = []
+    try:
+        cf = ChannelFor([svc])
+        async with cf as channel:
+            async def on_recv(event):
+                seen.append(event.deadline.time_remaining() if event.deadline is not None else None)
+            listen(cf._server, RecvRequest, on_recv)
+            kw = {"timeout": 10000.0} if case["what"] == "timeout" else {"deadline": Deadline.from_timeout(10000.0)}
+            stub = main.MainStub(channel, **kw)
+            reqs = req_alphabet(T, rk)[:1] * 2
+            for k in range(3):
+                try:
+                    await asyncio.wait_for(call(stub, py, cstream, sstream, reqs, False), 40)
+                except Exception as e:
+                    return [("reuse-call-failed", f"call {k + 1} on the same stub: {type(e).__name__}: {e}"[:200])]
+                clock.offset += 3000.0   # fifty minutes pass
+    finally:
+        gm.time = real_time
+    want = [10000.0, 10000.0, 10000.0] if case["what"] == "timeout" else [10000.0, 7000.0, 4000.0]
+    if len(seen) != 3 or any(s is None or abs(s - w) > 20.0 for s, w in zip(seen, want)):
+        out.append(("stub-default-across-calls",
+                    f"{m}: stub-level {case['what']} of 10000 s, three calls 3000 s apart: the server saw {seen!r} s remaining, expected about {want}"))
+    if len(record) != 3:
+        out.append(("invocations", f"{m}: {len(record)} handler invocations for 3 calls"))
+    return out
+
+
+async def concurrent_case(case: Dict[str, Any]) -> List[Tuple[str, str]]:
+    """Two calls in flight on ONE stub; the first is abandoned (its task is cancelled) while the
+    second still has requests to send: the second must complete intact."""
+    main, other = gen()
+    T = types(main, other)
+    m = case["method"]
+    _, cstream, sstream, rk, _ = METHODS[m]
+    py = py_method_names(main)[m]
+    record: List[Any] = []
+    svc = make_service(main, T, "normal", 2, record)
+    alpha = req_alphabet(T, rk)
+    reqs_a = [alpha[0], alpha[1 % len(alpha)], alpha[0]]
+    reqs_b = [alpha[1 % len(alpha)], alpha[0], alpha[1 % len(alpha)]]
+    gate = asyncio.Event()
+
+    async def slow(reqs, wait_before_last):
+        for i, r in enumerate(reqs):
+            if wait_before_last and i == len(reqs) - 1:
+                await gate.wait()
+            else:
+                await asyncio.sleep(0)
+            yield r
+
+    async with ChannelFor([svc]) as channel:
+        stub = main.MainStub(channel)
+        fn = getattr(stub, py)
+
+        async def run(reqs, wait):
+            arg = slow(reqs, wait) if cstream else reqs[0]
+            if sstream:
+                return [x async for x in fn(arg)]
+            return [await fn(arg)]
+
+        ta = asyncio.ensure_future(run(reqs_a, True))
+        for _ in range(5):
+            await asyncio.sleep(0)
+        tb = asyncio.ensure_future(run(reqs_b, True))
+        for _ in range(5):
+            await asyncio.sleep(0)
+        ta.cancel()
+        for _ in range(5):
+            await asyncio.sleep(0)
+        gate.set()
+        try:
+            got_b = await asyncio.wait_for(tb, 40)
+        except asyncio.TimeoutError:
+            return [("concurrent-call-stuck", f"{m}: the second of two concurrent calls on one stub never finished after the first was cancelled")]
+        except Exception as e:
+            return [("concurrent-call-failed", f"{m}: second call: {type(e).__name__}: {e}"[:200])]
+    want_reqs = reqs_b if cstream else reqs_b[:1]
+    mine = [r for r in record if r[0] == m and r[1] == want_reqs]
+    out: List[Tuple[str, str]] = []
+    if len(mine) != 1:
+        out.append(("concurrent-request-differs", f"{m}: handler invocations {record!r}, the surviving call sent {want_reqs!r}"[:400]))
+    want = respond(T, m, want_reqs, 2 if sstream else 1)
+    if got_b != want:
+        out.append(("concurrent-response-differs", f"{m}: surviving call received {got_b!r}, expected {want!r}"[:400]))
+    return out
+
+
 async def root_case(case: Dict[str, Any]) -> List[Tuple[str, str]]:
     """A service in the ROOT package (no proto package): route is /RootSvc/<Method>."""
     gen()
@@ -469,6 +587,10 @@ def cases(tier: str) -> List[Dict[str, Any]]:
         for a in (0, 7):
             out.append({"kind": "root", "method": rm, "a": a})
     for m in ("DoThing", "list_things", "SENDAll", "Get2Fa"):
+        for what in ("timeout", "deadline"):
+            out.append({"kind": "reuse", "method": m, "what": what})
+        out.append({"kind": "concurrent", "method": m})
+    for m in ("DoThing", "list_things", "SENDAll", "Get2Fa"):
         for cfg in itertools.product((0, 1), repeat=6):
             out.append({"kind": "precedence", "method": m, "cfg": list(cfg)})
             if cfg[4] or cfg[5]:
@@ -480,6 +602,10 @@ def cases(tier: str) -> List[Dict[str, Any]]:
 def sig(case: Dict[str, Any], oracle: str) -> List[str]:
     if case["kind"] == "root":
         return ["grpc", oracle, "root-package", case["method"]]
+    if case["kind"] in ("reuse", "concurrent"):
+        _, cstream, sstream, rk, _ = METHODS[case["method"]]
+        return ["grpc", oracle, ("stream" if cstream else "unary") + "-" + ("stream" if sstream else "unary"),
+                case["kind"] + ":" + case.get("what", "")]
     _, cstream, sstream, rk, _ = METHODS[case["method"]]
     card = ("stream" if cstream else "unary") + "-" + ("stream" if sstream else "unary")
     return ["grpc", oracle, card, case.get("outcome", "precedence")]
@@ -496,9 +622,10 @@ def _shard(shard: int, nshards: int, tier: str) -> Tally:
             case = cs[i]
             t.inc("calls")
             t.mark("distinct", (case["kind"], case["method"], tuple(case.get("req_idx", ())), case.get("n_out"),
-                                case.get("outcome"), str(case.get("as_async")), tuple(case.get("cfg", ())), case.get("a"), case.get("form")))
+                                case.get("outcome"), str(case.get("as_async")), tuple(case.get("cfg", ())), case.get("a"), case.get("form"), case.get("what")))
             try:
-                fn = {"precedence": precedence_case, "root": root_case}.get(case["kind"], one_case)
+                fn = {"precedence": precedence_case, "root": root_case, "reuse": reuse_case,
+                      "concurrent": concurrent_case}.get(case["kind"], one_case)
                 fails = loop.run_until_complete(fn(case))
             except Exception as e:
                 fails = [("harness-raised", f"{type(e).__name__}: {e}"[:300])]
@@ -543,7 +670,8 @@ def replay(case: dict) -> List[Violation]:
     gen()
     loop = asyncio.new_event_loop()
     try:
-        fn = {"precedence": precedence_case, "root": root_case}.get(case["kind"], one_case)
+        fn = {"precedence": precedence_case, "root": root_case, "reuse": reuse_case,
+                      "concurrent": concurrent_case}.get(case["kind"], one_case)
         fails = loop.run_until_complete(fn(case))
     finally:
         loop.close()
